@@ -99,7 +99,7 @@ EXCEPTIONS = [
     dict(fn="<types::SourceMapSectionIter<'a> as core::iter::traits::iterator::Iterator>::next::{closure#0}", what="Overflow:Add:u32", desc="^arg1.next_idx,1", count=1,
          reason="incremented only after get_section(next_idx) returned Some; fewer than 2^32 - 1 sections"),
     # ---- lookups --------------------------------------------------------------------------------------------------
-    dict(fn="types::SourceMap::lookup_token", what="Overflow:Sub:u32", desc="arg3,var:Token.raw.dst_col", count=1,
+    dict(fn="types::SourceMap::lookup_token", what="Overflow:Sub:u32", desc="arg3,try(utils::greatest_lower_bound(arg1.tokens,tuple(arg2,arg3),*)).1.dst_col", count=1,
          reason="greatest_lower_bound returns a token with (dst_line, dst_col) <= (line, col) lexicographically (C04.R3/R4); under the dominating guard dst_line == line (C07.R4) this gives dst_col <= col",
          requires=["C04.R1", "C04.R2", "C04.R3", "C04.R4", "C07.R4"]),
     dict(fn="types::SourceMapIndex::lookup_token", what="Overflow:Sub:u32", desc="arg2,*.offset.0", count=1,
